@@ -8,11 +8,11 @@ assign to them or call methods on them, and the fields of the property's struct 
 a pure function of the arguments and of these fields; a new variable, writer or field is state the
 model does not know of. The digest-valued `shape:` entry covers everything the call graph
 (resolved by go/types) reaches from the functions declared in the property's anchor files: per
-function, method (with receiver kind), package variable and constant, its numeric literals, the
+function, method (with receiver kind), package variable and constant, its numeric literals, its comparison operators, the
 package variables it reads and its writes through parameters or the receiver (including in-place
 `sort.*`/`copy`/`append`). The entries behind the digest are in `shape_expected.txt` and in a
 comment of the generated file. -/
-def stateC19 : List (String × String) := [("globals:graph", ""), ("globals:graphalg", ""), ("globalwrites:graph", ""), ("globalwrites:graphalg", ""), ("fields:graphalg.DomTree", "idom:[]int children:[][]int"), ("shape:C19", "n=25 fnv64a=b591eecd1f49b840")]
+def stateC19 : List (String × String) := [("globals:graph", ""), ("globals:graphalg", ""), ("globalwrites:graph", ""), ("globalwrites:graphalg", ""), ("fields:graphalg.DomTree", "idom:[]int children:[][]int"), ("shape:C19", "n=25 fnv64a=5623f7caeec1415c")]
 
 /-- the source has exactly the package-level variables, writers and struct fields the model accounts for -/
 theorem state_C19 : holdsAll stateC19 = true := by decide +kernel
